@@ -12,6 +12,7 @@
 #include <iv_fd_pump.h>
 #include <iv_signal.h>
 #include <iv_thread.h>
+#include <iv_tls.h>
 #include "sx.h"
 #include "kmodel.h"
 #include "pmodel.h"
@@ -19,6 +20,55 @@
 static int P_ntimers, P_parts;
 static int fired, evran, rawran;
 int pth_unjoined(void);
+
+/* an application module with per-thread state (iv_tls_user): its state lives in every thread's loop state,
+ * the init hook runs in iv_init, the deinit hook in iv_deinit or when a thread exits without iv_deinit */
+struct utls {
+	unsigned long	magic;
+	char		pad[13];	/* a size that is not a multiple of the 16-byte slot alignment */
+};
+static int utls_inits, utls_deinits;
+
+static void utls_init(void *_u)
+{
+	struct utls *u = _u;
+
+	memset(u, 0x5a, sizeof(*u));
+	u->magic = 0x7d5a11ceUL;
+	utls_inits++;
+}
+
+static void utls_deinit(void *_u)
+{
+	struct utls *u = _u;
+	unsigned i;
+
+	sx_assert(u->magic == 0x7d5a11ceUL, "C18.tls-user-state-clobbered");
+	for (i = 0; i < sizeof(u->pad); i++)
+		sx_assert(u->pad[i] == 0x5a, "C18.tls-user-state-clobbered");
+	u->magic = 0;
+	utls_deinits++;
+}
+
+static struct iv_tls_user utu = {
+	.sizeof_state	= sizeof(struct utls),
+	.init_thread	= utls_init,
+	.deinit_thread	= utls_deinit,
+};
+
+static void utls_check_inside(void)
+{
+	struct utls *u = iv_tls_user_ptr(&utu);
+
+	sx_assert(iv_inited(), "C18.iv_inited-false-inside-an-initialised-thread");
+	sx_assert(u != NULL && u->magic == 0x7d5a11ceUL, "C18.tls-user-ptr-wrong-inside-thread");
+}
+
+static void utls_check_outside(void)
+{
+	sx_assert(!iv_inited(), "C18.iv_inited-true-without-a-loop");
+	sx_assert(iv_tls_user_ptr(&utu) == NULL, "C18.tls-user-ptr-not-null-without-a-loop");
+}
 
 static void tmh(void *c)
 {
@@ -66,9 +116,13 @@ static void child_body(void *arg)
 {
 	long mode = (long)arg;
 
+	utls_check_outside();
 	iv_init();
-	if (mode)
+	utls_check_inside();
+	if (mode) {
 		iv_deinit();
+		utls_check_outside();
+	}
 	/* mode 0: the thread exits with its loop state alive: the key destructor must release it */
 }
 
@@ -96,6 +150,23 @@ static void use_loop(void)
 		fd->cookie = fd;
 		fd->handler_in = fdh;
 		iv_fd_register(fd);
+	}
+	if (P_parts & 128) {
+		/* a registration that reports failure (the descriptor is not open) leaves nothing behind:
+		 * the structure is freed at once, the descriptor number is handed out again */
+		struct iv_fd *fd = malloc(sizeof(*fd));
+		int ret;
+		IV_FD_INIT(fd);
+		fd->fd = k_new_generic();
+		fd->cookie = fd;
+		fd->handler_in = fdh;
+		kfds[fd->fd].kind = K_FREE;
+		k_epoll_ctl_fail_fd = fd->fd;
+		ret = iv_fd_register_try(fd);
+		k_epoll_ctl_fail_fd = -1;
+		sx_assert(ret != 0, "C07.register_try-reported-success-on-failure");
+		free(fd);
+		sx_cover("lifecycle.failed-register_try");
 	}
 	if (P_parts & 4) {
 		struct iv_event *ev = malloc(sizeof(*ev));
@@ -138,6 +209,7 @@ static void use_loop(void)
 	if (P_parts & 32)
 		sx_assert(iv_thread_create("c", child_body, (void *)(long)sx_choose(2)) == 0, "C18.thread-create-failed");
 	iv_main();
+	utls_check_inside();
 	if (P_parts & 1) {
 		for (i = 0; i < P_ntimers; i++) {
 			if (iv_timer_registered(tm[i]))
@@ -217,6 +289,7 @@ static void one_cycle(void)
 		P_parts = save;
 	}
 	iv_deinit();
+	utls_check_outside();
 }
 
 static void *thread_cycle(void *arg)
@@ -225,7 +298,9 @@ static void *thread_cycle(void *arg)
 	struct iv_task t;
 	int i;
 
+	utls_check_outside();
 	iv_init();
+	utls_check_inside();
 	if (P_parts & 1) {
 		for (i = 0; i < P_ntimers; i++) {
 			far[nfar] = malloc(sizeof(struct iv_timer));
@@ -256,6 +331,9 @@ static void check_clean(const char *what)
 	sx_assert(k_count_open(1) == 0, "C18.descriptor-leak-after-cycle");
 	sx_leak_check(0);
 	sx_assert(sx_nthreads() == 1, "C18.thread-left-after-cycle");
+	/* every thread that got a loop state has had the module tear-down hook run exactly once */
+	sx_assert(utls_inits == utls_deinits, "C18.module-teardown-hook-not-paired-with-init-hook");
+	sx_assert(utls_inits > 0, "C18.module-init-hook-never-ran");
 }
 
 void sx_main(void)
@@ -264,7 +342,7 @@ void sx_main(void)
 	pthread_t th;
 
 	P_ntimers = (int)sx_opt("timers", 6);
-	P_parts = (int)sx_opt("parts", 63);
+	P_parts = (int)sx_opt("parts", 63 + 128);
 	m = (int)sx_opt("method", 0);
 	k_env_exclude = m == 0 ? NULL : m == 1 ? "epoll-timerfd" : m == 2 ? "epoll-timerfd epoll"
 									: "epoll-timerfd epoll ppoll";
@@ -274,6 +352,8 @@ void sx_main(void)
 		k_sys_mode[KSYS_EVENTFD2] = 1;
 		k_sys_mode[KSYS_EVENTFD] = 1;
 	}
+	iv_tls_user_register(&utu);	/* before the first iv_init, as documented */
+	utls_check_outside();
 	for (c = 0; c < cycles; c++) {
 		one_cycle();
 		check_clean("main-thread cycle");
